@@ -231,7 +231,18 @@ class History:
                         continue
                     raise
                 expected[(id(t), node)] = expr
+                particle = t.states[parent_of(t.topology, node)].particle
                 for p, v in pars.items():
+                    # documented defaults of the public builders: the resonance's own mass and width, radius 1
+                    # (taken from the particle, not from what the builder object returns: it may remember)
+                    documented = {"m_{": particle.mass, "\\Gamma_{": particle.width, "d_{": 1}
+                    want = next((val for prefix, val in documented.items() if p.name.startswith(prefix)), None)
+                    if want is not None and self.model.get(decay_key(t, node)) != PROBE and v != want:
+                        self.result = violation(
+                            "builder_default_is_not_the_particle_property", nontrivial, sorted(labels), parameter=p.name,
+                            got=v, want=want, particle=particle.name,
+                        )
+                        return
                     expected_defaults.setdefault(p, set()).add(v)
         try:
             model = self.builder.formulate()
